@@ -33,7 +33,8 @@ CONSTANTS N,          \* number of variables of the universe (<= 5)
           Fills,      \* join fill modes explored, subset of {"zero","sym","num","tmpl"}
           NPats,      \* how many of the level patterns AllPats of the initial blocks are used
           Confl,      \* check the (expensive) confluence invariant?
-          Ops         \* enabled operation kinds
+          Ops,        \* enabled operation kinds
+          InitKinds   \* subset of {"plain", "shared"}: initial configurations used
 
 VARIABLES rvs,   \* Seq of blocks
           ren,   \* set of variables whose NAME was renamed by subs
@@ -288,11 +289,16 @@ InitBlocks(c, lp) ==
         b2 == FullBlock([i \in 1..c[2] |-> c[1] + i], lp[2])
         b3 == FullBlock([i \in 1..c[3] |-> c[1] + c[2] + i], lp[3])
     IN <<b1>> \o (IF c[2] > 0 THEN <<b2>> ELSE <<>>) \o (IF c[3] > 0 THEN <<b3>> ELSE <<>>)
-Init == \E c \in Compositions, lp \in LevelPats :
-          /\ rvs = InitBlocks(c, lp)
+\* "shared": the same variance PARAMETER on several distributions (IOV: one eta per occasion, all with the
+\* omega of the first occasion): a block of m IIV variables, then N-m univariate IOV variables sharing V_{m+1}
+SharedBlocks(m, L) == <<FullBlock([i \in 1..m |-> i], L)>> \o [i \in 1..(N - m) |-> Single(m + i, "IOV", VarE(m + 1))]
+InitSet == (IF "plain" \in InitKinds THEN {InitBlocks(c, lp) : c \in Compositions, lp \in LevelPats} ELSE {})
+           \cup (IF "shared" \in InitKinds THEN {SharedBlocks(m, lp[1]) : m \in 1..(N - 1), lp \in LevelPats} ELSE {})
+Init == \E b \in InitSet :
+          /\ rvs = b
           /\ ren = {}
           /\ hist = <<>>
-          /\ init = IF Track THEN Proj(InitBlocks(c, lp)) ELSE <<>>
+          /\ init = IF Track THEN Proj(b) ELSE <<>>
 
 Spec == Init /\ [][Next]_vars
 
